@@ -76,7 +76,7 @@ func init() {
 		})
 		cfg := &ref.Config{D: td.d}
 		if mode == 2 {
-			cfg.Env = map[string]string{"GO_FLAGS_COMPLETION": "1"}
+			cfg.Env = map[string]string{"GO_FLAGS_COMPLETION": []string{"1", "verbose", "yes"}[len(argv)%3]} // any non-empty value means completion
 		} else if extra == 3 {
 			cfg.Env = map[string]string{"C09_ENV": "1,zz,3"} // split on env-delim: the middle value does not convert
 			c.Hit("bad-environment-default")
